@@ -60,6 +60,12 @@ def write_cfg(name, **kw):
     return p
 
 
+def log_tlc(chk, label, r, constants):
+    """Records a TLC run in the evidence without adding its states to the model-checking totals."""
+    chk.cov["tlc_runs"].append({"label": label, "distinct_states": r.distinct, "states_generated": r.generated, "depth": r.depth,
+                                "wall_s": round(r.wall, 1), "exit": r.rc, "constants": constants})
+
+
 def consts(kw):
     return {k: v for k, v in kw.items() if k not in ("inv", "gen")}
 
@@ -92,7 +98,7 @@ def leg_mc(chk, tier):
     for c, r in zip(confs, res):
         chk.add_tlc("MC_Csv M=>A (deviations off)", r, consts(c))
     rcov = res[len(confs)]
-    chk.add_tlc("MC_Csv -coverage (action vacuity guard, light invariants)", rcov, consts(confs[0]))
+    log_tlc(chk, "MC_Csv -coverage (action vacuity guard, light invariants; same state graph, not added to the totals)", rcov, consts(confs[0]))
     zero = [a for a in rcov.coverage_zero_actions() if a in ("AddCell", "Write", "WriteRagged", "Render", "MakeRagged")]
     if zero or "<Render line" not in rcov.out:
         raise vlib.MachineryError("vacuity: actions never taken in MC_Csv: %s" % zero)
@@ -144,7 +150,7 @@ def generate(chk, tier):
     tables, texts = [], []
     seen = set()
     for (kind, c, _), r in zip(jobs, res):
-        chk.add_tlc("MC_Csv generation (%s%s)" % (kind, ", simulation" if "n" in c else ""), r, consts(c))
+        log_tlc(chk, "MC_Csv generation (%s%s; not added to the totals)" % (kind, ", seeded simulation, all invariants checked" if "n" in c else ""), r, consts(c))
         for g in r.printed("GEN"):
             key = json.dumps(g, sort_keys=True)
             if key in seen:
